@@ -281,9 +281,12 @@ impl Transformer {
                         .add_shadowing_identifier(param, *param_span)?;
                 }
 
-                // Register local variable identifiers before transforming the body,
-                // since the body expression may reference them (where clauses).
+                // Local variables (where clauses) are defined one after the other: the
+                // expression of a local variable sees the parameters and the local variables
+                // before it, but neither itself nor the ones after it (for those, a name such
+                // as `s` still means the unit). The body sees all of them.
                 for def in &mut *local_variables {
+                    fn_body_transformer.transform_expression(&mut def.expr);
                     fn_body_transformer
                         .variable_names
                         .push(def.identifier.to_compact_string());
@@ -294,11 +297,6 @@ impl Transformer {
 
                 if let Some(expr) = body {
                     fn_body_transformer.transform_expression(expr);
-                }
-
-                // Now transform the local variable expressions
-                for def in local_variables {
-                    fn_body_transformer.transform_expression(&mut def.expr);
                 }
             }
             Statement::DefineDimension(_, name, _) => {
